@@ -325,6 +325,7 @@ type summary struct {
 	Layers      map[string]int       `json:"layers"`
 	Samples     []map[string]any     `json:"samples"`
 	CacheMut    int64                `json:"cache_mutations"`
+	CacheMutQ   string               `json:"cache_mutation_query"`
 	NextIdx     int                  `json:"next_idx"` // first case index of this shard NOT evaluated (deadline), -1 = shard finished
 }
 
@@ -441,6 +442,9 @@ func workerMain(thorough bool, shard, of, from int, deadline int64, journal stri
 		jf.WriteAt(buf[:], 0)
 	}
 	sum.CacheMut = cacheMutations.Load()
+	if t, ok := cacheMutText.Load().(string); ok {
+		sum.CacheMutQ = t
+	}
 	w := bufio.NewWriter(os.Stdout)
 	b, _ := json.Marshal(sum)
 	w.WriteString("C08SUMMARY ")
@@ -736,6 +740,9 @@ func main() {
 			all.ChsimUnsupp += s.ChsimUnsupp
 			all.Harness += s.Harness
 			all.CacheMut += s.CacheMut
+			if all.CacheMutQ == "" || (s.CacheMutQ != "" && s.CacheMutQ < all.CacheMutQ) {
+				all.CacheMutQ = s.CacheMutQ
+			}
 			if all.ChsimFirst == "" {
 				all.ChsimFirst = s.ChsimFirst
 			}
@@ -803,6 +810,7 @@ func main() {
 	r.Extra["sql_statements_executed_by_chsim"] = all.Statements
 	r.Extra["chsim_unsupported"] = all.ChsimUnsupp
 	r.Extra["harness_parse_cache_entries_edited_by_planning"] = all.CacheMut
+	r.Extra["harness_parse_cache_first_edited_query"] = all.CacheMutQ
 	r.Extra["outcome_counts"] = all.Outcomes
 	r.Extra["workers"] = workers
 	cc := map[string]int{}
